@@ -278,12 +278,16 @@ theorem gw_variable_exact_at_observations (n : Nat) (pre post : List (Int × α)
     (gwVariable n (pre ++ (Int.ofNat d, v) :: post))[d]? = some (some v) :=
   gw_variable_at_obs n pre post d v hd hpost
 
-/-- "Variable" method: across a gap of `m` missing days the series is linear in the day index. -/
-theorem gw_variable_linear_in_gaps (s1 s2 : List (Option α)) (va vb : α) (m t : Nat) (ht : t < m) :
-    (fillGaps (validPts 0 (s1 ++ some va :: (List.replicate m none ++ some vb :: s2))) 0 false
-        (s1 ++ some va :: (List.replicate m none ++ some vb :: s2)))[s1.length + 1 + t]? =
-      some (some ((vb - va) / ((m : α) + 1) * ((t : α) + 1) + va)) :=
-  fillGaps_between s1 s2 va vb m t ht
+/-- "Variable" method: between two consecutive observations (each the last row of its date, no row
+dated strictly between them) the series is linear in time, wherever the two are dated. -/
+theorem gw_variable_linear_in_gaps (n : Nat) (obs pre0 post0 pre1 post1 : List (Int × α))
+    (d0 d1 : Int) (v0 v1 : α) (i : Nat) (hi : i < n)
+    (e0 : obs = pre0 ++ (d0, v0) :: post0) (hpost0 : ∀ q ∈ post0, q.1 ≠ d0)
+    (e1 : obs = pre1 ++ (d1, v1) :: post1) (hpost1 : ∀ q ∈ post1, q.1 ≠ d1)
+    (hno : ∀ q ∈ obs, ¬ (d0 < q.1 ∧ q.1 < d1)) (h0 : d0 ≤ Int.ofNat i) (h1 : Int.ofNat i < d1) :
+    (gwVariable n obs)[i]? =
+      some (some ((v1 - v0) / ((d1 - d0 : Int) : α) * ((Int.ofNat i - d0 : Int) : α) + v0)) :=
+  gw_variable_between n obs pre0 post0 pre1 post1 d0 d1 v0 v1 i hi e0 hpost0 e1 hpost1 hno h0 h1
 
 end field
 
